@@ -34,6 +34,7 @@ type fn struct {
 	dom      func(c *smt.Ctx, v in) *smt.Expr
 	spec     func(c *smt.Ctx, v in) out
 	thorough bool // only in the thorough tier
+	o2       bool // also checked on the module compiled at -O 2 (constant-parameter copy elision)
 	maxW     int  // widest UTF-8 class exercised (0 = all of the tier); cells beyond it did not finish in the thorough budget
 }
 
@@ -171,11 +172,17 @@ var funcs = []fn{
 			return out{s: mkSeq(c, 4, c.Add(c.Sub(v.x, v.y), bv(c, 1)), 64, func(k int) *smt.Expr { return c.Sub(v.x, bv(c, k)) })}
 		}},
 	// ------------------------------------------------------------------ Duden/Sortierung
-	{name: "sort", fam: "list", params: []string{pListRef}, ret: "nichts", body: "Sortiere a.", observe: "a", maxA: 4,
+	{name: "sort", o2: true, fam: "list", params: []string{pListRef}, ret: "nichts", body: "Sortiere a.", observe: "a", maxA: 4,
 		doc: "Quicksort_Ref: the ascending arrangement of the list", dom: always,
 		spec: func(c *smt.Ctx, v in) out { return out{s: specSorted(c, v.a)} }},
-	{name: "sortv", fam: "list", params: []string{pListRef}, ret: "list", body: "Gib (a verkettet mit (eine leere Zahlen Liste)) sortiert zurück.", observe: "ret", keepsA: true,
+	{name: "sortv", o2: true, fam: "list", params: []string{pListRef}, ret: "list", body: "Gib (a verkettet mit (eine leere Zahlen Liste)) sortiert zurück.", observe: "ret", keepsA: true,
 		doc: "Quicksort (value variant, on a temporary)", dom: always,
+		spec: func(c *smt.Ctx, v in) out { return out{s: specSorted(c, v.a)} }},
+	{name: "sortl", o2: true, fam: "list", params: []string{pListRef}, ret: "list", body: "Die Zahlen Liste k ist a.\n\tDie Zahlen Liste s ist k sortiert.\n\tGib k zurück.", observe: "ret", keepsA: true,
+		doc: "Quicksort (value variant): the local variable given as value argument is unchanged", dom: always,
+		spec: func(c *smt.Ctx, v in) out { return out{s: concSeq(c, v.a)} }},
+	{name: "sortl2", o2: true, fam: "list", params: []string{pListRef}, ret: "list", body: "Die Zahlen Liste k ist a.\n\tDie Zahlen Liste s ist k sortiert.\n\tGib s zurück.", observe: "ret", keepsA: true,
+		doc: "Quicksort (value variant) of a local variable", dom: always,
 		spec: func(c *smt.Ctx, v in) out { return out{s: specSorted(c, v.a)} }},
 
 	// ------------------------------------------------------------------ Duden/Texte
